@@ -2,9 +2,9 @@ package rules
 
 import (
 	"fmt"
-	"strings"
 	"go/token"
 	"go/types"
+	"strings"
 
 	"golang.org/x/tools/go/ssa"
 
